@@ -86,24 +86,25 @@ type term struct {
 // configuration of one enumeration
 
 type gcfg struct {
-	Names     []string // binder pool
-	MaxW      int      // node-count bound of a whole program
-	Let2      bool     // two-binding let / let*
-	Dotimes   bool
-	Macrolet  bool
-	GSet      bool // (set 'g v) assignments inside expressions
-	FunArg    bool // (function n) and #^ prefix lambdas
-	Styles    int  // defun parameter styles: 1 = plain, 4 = plain,&key,&optional,&rest
-	Packages  bool // in-package / export / use-package / pkg:name
-	Files     bool // file break item
-	Macros    bool // defmacro items
-	Redefine  bool // the same (package, name) may be defined twice at top level
-	MaxItems  int  // max top-level items before the final expression
-	Data      bool // keyword and quoted-symbol data leaves
-	FixParam  bool // defun parameters always use the last pool name
-	DefNames  int  // number of pool names usable for top-level definitions (0 = all)
-	HoleMaxW  int  // max weight of a hole inside an item (0 = unbounded)
-	FinalMaxW int  // max weight of the final expression (0 = unbounded)
+	Names      []string // binder pool
+	MaxW       int      // node-count bound of a whole program
+	Let2       bool     // two-binding let / let*
+	Dotimes    bool
+	Macrolet   bool
+	GSet       bool // (set 'g v) assignments inside expressions
+	FunArg     bool // (function n) and #^ prefix lambdas
+	Styles     int  // defun parameter styles: 1 = plain, 4 = plain,&key,&optional,&rest
+	Packages   bool // in-package / export / use-package / pkg:name
+	Files      bool // file break item
+	Macros     bool // defmacro items
+	QTemplates bool // defmacro templates that mention pkg:name
+	Redefine   bool // the same (package, name) may be defined twice at top level
+	MaxItems   int  // max top-level items before the final expression
+	Data       bool // keyword and quoted-symbol data leaves
+	FixParam   bool // defun parameters always use the last pool name
+	DefNames   int  // number of pool names usable for top-level definitions (0 = all)
+	HoleMaxW   int  // max weight of a hole inside an item (0 = unbounded)
+	FinalMaxW  int  // max weight of the final expression (0 = unbounded)
 }
 
 // per-skeleton context: what the holes may refer to
@@ -120,6 +121,7 @@ type macroDef struct {
 	param int8
 	tmpl  int8
 	free  int8 // name mentioned free by the template, -1 none
+	fpkg  int8 // package qualifier of that mention (pkg:name), -1 = unqualified
 }
 
 func (c *gctx) key() string {
@@ -129,7 +131,7 @@ func (c *gctx) key() string {
 		fmt.Fprintf(&b, "k%d.%d", k[0], k[1])
 	}
 	for _, m := range c.macros {
-		fmt.Fprintf(&b, "m%d.%d.%d", m.param, m.tmpl, m.free)
+		fmt.Fprintf(&b, "m%d.%d.%d.%d", m.param, m.tmpl, m.free, m.fpkg)
 	}
 	for _, q := range c.qdefs {
 		fmt.Fprintf(&b, "q%d.%d", q[0], q[1])
@@ -313,7 +315,7 @@ func (g *gen) genExpr(ctx int, w int, sc scope) []*term {
 	}
 	// (m A): only where the template's free name is not locally bound
 	for i, m := range c.macros {
-		if m.free >= 0 && sc.local&(1<<uint(m.free)) != 0 {
+		if m.free >= 0 && m.fpkg < 0 && sc.local&(1<<uint(m.free)) != 0 { // a qualified mention cannot be captured by a local
 			continue
 		}
 		for _, a := range args {
@@ -506,6 +508,7 @@ type item struct {
 	style int8
 	tmpl  int8
 	free  int8
+	fpkg  int8 // defmacro: package qualifier of the template's free name, -1 = unqualified
 	pkg   int8 // package the item is evaluated in (0 user, 1 q)
 	hole  int  // weight of the hole
 	fill  *term
@@ -613,13 +616,28 @@ func (g *gen) skeletons(f func(items []item)) {
 						}
 						ns := s
 						ns.nmacros++
-						push(item{k: itDefmacro, n: int8(s.nmacros), p: p, tmpl: t, free: -1}, 2, ns)
+						push(item{k: itDefmacro, n: int8(s.nmacros), p: p, tmpl: t, free: -1, fpkg: -1}, 2, ns)
 						continue
 					}
 					for fr := int8(0); fr < int8(nn); fr++ {
 						ns := s
 						ns.nmacros++
-						push(item{k: itDefmacro, n: int8(s.nmacros), p: p, tmpl: t, free: fr}, 2, ns)
+						push(item{k: itDefmacro, n: int8(s.nmacros), p: p, tmpl: t, free: fr, fpkg: -1}, 2, ns)
+					}
+					// the same template with a package-qualified mention (pkg:name); the
+					// parameter name is irrelevant for it: keep one
+					if g.cfg.QTemplates && p == 0 {
+						npk := int8(1)
+						if g.cfg.Packages {
+							npk = 2
+						}
+						for fp := int8(0); fp < npk; fp++ {
+							for fr := int8(0); fr < int8(dn); fr++ {
+								ns := s
+								ns.nmacros++
+								push(item{k: itDefmacro, n: int8(s.nmacros), p: p, tmpl: t, free: fr, fpkg: fp}, 2, ns)
+							}
+						}
 					}
 				}
 			}
@@ -745,7 +763,11 @@ func skeletonOK(items []item) bool {
 		if it.k == itDefmacro && it.free >= 0 {
 			ok := false
 			for _, d := range items {
-				if (d.k == itDefun || d.k == itSet) && d.n == it.free && d.pkg == it.pkg {
+				want := it.pkg
+				if it.fpkg >= 0 {
+					want = it.fpkg
+				}
+				if (d.k == itDefun || d.k == itSet) && d.n == it.free && d.pkg == want {
 					ok = true
 				}
 			}
@@ -786,7 +808,7 @@ func contextOf(items []item) *gctx {
 				}
 			}
 		case itDefmacro:
-			c.macros = append(c.macros, macroDef{param: it.p, tmpl: it.tmpl, free: it.free})
+			c.macros = append(c.macros, macroDef{param: it.p, tmpl: it.tmpl, free: it.free, fpkg: it.fpkg})
 		}
 	}
 	return c
@@ -958,7 +980,7 @@ func termHasKey(t *term) bool {
 	return false
 }
 
-var allTags = []string{"&key", "&optional", "&rest", "callkey", "defmacro", "defmacro-free", "defmacro-free-eq-param", "dotimes", "export", "export-in-other-file",
+var allTags = []string{"&key", "&optional", "&rest", "callkey", "defmacro", "defmacro-free", "defmacro-free-eq-param", "defmacro-qfree", "dotimes", "export", "export-in-other-file",
 	"files", "funarg", "gset", "let-dup", "let-value-closure", "macrolet", "macrolet-free", "pkg", "prefix", "qref", "qref-in-brackets", "redefine", "use", "use-with-local-export"}
 
 func termTags(t *term, tags map[string]bool, inBrackets bool) {
@@ -1126,6 +1148,9 @@ func (g *gen) render(items []item) program {
 			free := ""
 			if it.free >= 0 {
 				free = r.name(it.free)
+				if it.fpkg >= 0 {
+					free = pkgNames[it.fpkg] + ":" + free
+				}
 			}
 			r.b.WriteString("(defmacro m" + strconv.Itoa(int(it.n)) + " (" + r.name(it.p) + ") (quasiquote " + templateText(it.tmpl, r.name(it.p), free) + "))")
 		case itSet:
@@ -1174,7 +1199,9 @@ func (g *gen) render(items []item) program {
 				tags["pkg"] = true
 			}
 		case itDefmacro:
-			if it.free >= 0 && it.free == it.p {
+			if it.free >= 0 && it.fpkg >= 0 {
+				tags["defmacro-qfree"] = true
+			} else if it.free >= 0 && it.free == it.p {
 				tags["defmacro-free-eq-param"] = true
 			} else if it.free >= 0 {
 				tags["defmacro-free"] = true
